@@ -3,6 +3,7 @@ from .ir import load_unit, unit_errors, AnalysisBroken
 from . import rules_guard as RG
 from . import rules_atomic as RA
 from . import rules_slab as RS
+from . import rules_slab2 as RS2
 from . import rules_qs as RQ
 from . import rules_radix as RR
 from . import rules_own as RO
@@ -115,6 +116,7 @@ def C09(ctx):
             "leaves or under a clear bit. Not decided: exactness of the map over all key sets, ascending iteration order.")
 
 
+HOLDERS = ["frg::optional", "frg::manual_box", "frg::expected", "frg::variant"]
 SEQ_OWNERS = ["frg::vector", "frg::small_vector", "frg::dyn_array"]
 
 
@@ -157,6 +159,8 @@ def C16(ctx):
              "destroyed / returned to the allocator, until it is reassigned", 8)
     for u in (us, uh, ust, uo, ur):
         RO.check_no_use_after_release(ctx, u, [f for f in u.functions if f.uq.startswith("frg::")])
+    RHO.check_holders(ctx, uo, HOLDERS)
+    RR.check_radix_dtor(ctx, ur)
     return ("Structural clauses of C16. Not decided: exactly-once as a count over arbitrary histories.")
 
 
@@ -246,9 +250,6 @@ def C19(ctx):
             "NOT decided: byte-for-byte agreement with ISO C printf (a numeric/string result over runtime values).")
 
 
-HOLDERS = ["frg::optional", "frg::manual_box", "frg::expected", "frg::variant"]
-
-
 def C17(ctx):
     u = need_unit(ctx, "holders", w1=True)
     RHO.check_holders(ctx, u, HOLDERS)
@@ -264,4 +265,32 @@ def C17(ctx):
             "types by static_assert. Not decided: equality of held values with the std types after histories.")
 
 
-PROPS = {"C17": C17, "C19": C19, "C20": C20, "C15": C15, "C18": C18, "C14": C14, "C13": C13, "C16": C16, "C10": C10, "C09": C09, "C11": C11, "C12": C12, "C05": C05, "C04": C04}
+def C01(ctx):
+    u = need_unit(ctx, "slab", w1=True)
+    RS2.check_C01(ctx, u)
+    return ("Structural clauses of C01: size-class arithmetic as compiler-evaluated static_asserts for every size in three "
+            "configurations; one frame look-up expression whose alignment equals the constructors' placement alignment; slab "
+            "carving (overhead a multiple of the item size covering the header, objects at address+k*item_size below length); "
+            "what allocate returns and get_size reports; zero-length requests raised to one. Not decided: pairwise "
+            "disjointness and containment over histories (runtime addresses).")
+
+
+def C02(ctx):
+    u = need_unit(ctx, "slab")
+    RS2.check_C02(ctx, u)
+    return ("Structural clauses of C02: null/zero special cases and null tests before any header dereference; copy-then-free "
+            "order and provenance of the copy length in realloc's fallback; in-place success only when the size fits; a new slab "
+            "only when the bucket has no head; full-test before push and re-insertion in free. Not decided: byte equality of "
+            "contents; the footprint bound itself (a counting argument over histories).")
+
+
+def C03(ctx):
+    u = need_unit(ctx, "slab")
+    RS2.check_C03(ctx, u)
+    return ("Structural clauses of C03: map length == recorded reservation, map result == recorded base; single unmap site fed "
+            "from those two header fields read before poisoning and reached only for large frames; one page-accounting "
+            "expression for increments and the decrement; poison/unpoison ordering around every construction, link write and "
+            "hand-out. Not decided: exactly-once unmapping over histories, absence of drift as a numeric statement.")
+
+
+PROPS = {"C01": C01, "C02": C02, "C03": C03, "C17": C17, "C19": C19, "C20": C20, "C15": C15, "C18": C18, "C14": C14, "C13": C13, "C16": C16, "C10": C10, "C09": C09, "C11": C11, "C12": C12, "C05": C05, "C04": C04}
